@@ -187,7 +187,7 @@ def apply_edits(item, edits, twin_false=False):
             kind = at.get("kind")
             if kind not in REPLACE_KINDS:
                 raise SpecError("replace edit needs kind= one of %s" % sorted(REPLACE_KINDS))
-            item.replace(kind, e["a"], e["b"], int(at.get("count", "1")), at.get("why", ""))
+            item.replace(kind, e["a"], e["b"], -1 if at.get("count") == "any" else int(at.get("count", "1")), at.get("why", ""))
         elif k == "lift-block":
             item.lift_block(at["anchor"], int(at.get("nth", "1")), e["a"], at.get("why", ""), at.get("pre", ""), at.get("post", ""))
         elif k == "lift-stmts":
